@@ -62,7 +62,24 @@ for ((i=0;i<NSH;i++)); do
   pids+=($!)
   [ -n "$ONLY" ] && break
 done
+# extra part of a check that lives in another module (same property id, next shard number)
+declare -A EXTRA=( [C46]=wasm )
+xpkg=${EXTRA[$PROP]:-}
+if [ -n "$xpkg" ] && [ -z "$ONLY" ]; then
+  xdir=$VROOT/harness-wasm; XBIN=$VROOT/bin/$xpkg.$$.x.test; xflag=""
+  if [ -n "${VERIF_REPO:-}" ]; then
+    mfx=$(mktemp -d $VROOT/out/modXXXXXX); sed "s#=> /repo#=> $VERIF_REPO#g" $xdir/go.mod > $mfx/go.mod; cp $xdir/go.sum $mfx/go.sum; xflag="-modfile=$mfx/go.mod"
+  fi
+  if ( cd $xdir && go test -c $xflag -tags verif -o "$XBIN" ./$xpkg ) >> "$OUT/build.log" 2>&1; then
+    VERIF_OUT="$OUT" VERIF_SEED="$SEED" VERIF_TIER="$TIER" VERIF_SHARD="$NSH/$((NSH+1))" \
+      timeout -s QUIT "$TMO" "$XBIN" -test.run "^Test$PROP\$" -test.v -test.timeout 0 > "$OUT/shard$NSH.log" 2>&1 &
+    pids+=($!)
+  else
+    echo "extra part does not build" > "$OUT/shard$NSH.log"
+  fi
+fi
 for p in "${pids[@]}"; do wait "$p"; done
+rm -f "${XBIN:-/nonexistent}"; [ -n "${mfx:-}" ] && rm -rf "$mfx"
 t2=$(date +%s)
 python3 $VROOT/merge.py "$PROP" "$TIER" "$SEED" "$OUT" "$((t1-t0))" "$((t2-t1))" "${ONLY:+replay}"
 rc=$?
